@@ -420,7 +420,10 @@ class CFG(object):
             stmts = set(id(nd.stmt) for nd in asg)
             others = [nd for nd in self.nodes if nd.kind in ('stmt', 'head') and nd.stmt is not None and id(nd.stmt) not in stmts
                       and self._kills(t, [nd.id])]
-            if len(stmts) != 1 or others:
+            if others:
+                continue
+            if len(stmts) != 1:
+                extra.extend(self._expand_flag(t, p, node, asg))
                 continue
             val = asg[0].stmt.value
             if not isinstance(val, (ast.BoolOp, ast.Compare, ast.UnaryOp, ast.Call, ast.Attribute, ast.Name)):
@@ -441,6 +444,71 @@ class CFG(object):
         if not new:
             return conds
         return conds + self._expand_named(new, node, depth + 1)
+
+    def _expand_flag(self, t, p, node, asg):
+        """A local bound only by ``flag = <constant>`` statements (the shape a predicate with several
+        ``return True`` / ``return False`` exits takes once it is inlined, or a hand-written flag).  When
+        (flag, p) holds at ``node`` the binding executed last had a constant of truthiness ``p`` and no other
+        binding of the flag ran after it.  For such a binding site: what holds at the site still holds at ``node``
+        (unless a statement on the way re-binds a name the condition reads), and so does every branch that all
+        binding-free paths from the site to ``node`` take.  What is common to all sites that reach ``node`` is
+        returned."""
+        if getattr(self, '_flag_depth', 0) >= 3:
+            return []
+        if not asg or not all(isinstance(nd.stmt.value, ast.Constant) for nd in asg):
+            return []
+        ids = [nd.id for nd in asg]
+        common = None
+        self._flag_depth = getattr(self, '_flag_depth', 0) + 1
+        try:
+            for nd in asg:
+                if bool(nd.stmt.value.value) is not p:
+                    continue
+                fwd = self.reach(self.succ[nd.id], avoid=ids)
+                if node not in fwd:
+                    continue       # overwritten before (or never reaching) node
+                mid = (fwd & self.coreach([node], avoid=ids)) - {node}
+                here = {}
+                for ct, cp in self.conds_at(nd.id):
+                    if isinstance(ct, ast.Name) and ct.id == t.id:
+                        continue
+                    if self._kills(ct, mid):
+                        continue
+                    here[(norm(ct), cp)] = (ct, cp)
+                for ct, cp in expand_conds(self._conds_between(self.succ[nd.id], node, ids)):
+                    if not (isinstance(ct, ast.Name) and ct.id == t.id):
+                        here[(norm(ct), cp)] = (ct, cp)
+                common = here if common is None else dict((k, v) for k, v in common.items() if k in here)
+        finally:
+            self._flag_depth -= 1
+        return list((common or {}).values())
+
+    def _conds_between(self, srcs, node, avoid=()):
+        """[(test, polarity)] of the branches every path from ``srcs`` to ``node`` that stays clear of ``avoid`` takes
+        (last evaluation before ``node``, nothing in between re-binding a name the test reads)."""
+        avoid = set(avoid)
+        out = []
+        seen = set()
+        srcs = [x for x in srcs if x not in avoid]
+        for nd in self.nodes:
+            if nd.kind != 'branch' or id(nd.test) in seen:
+                continue
+            seen.add(id(nd.test))
+            for pol in (True, False):
+                b = self.branch_nodes(nd.test, pol)
+                nb = self.branch_nodes(nd.test, not pol)
+                if node in b or not b:
+                    continue
+                if node in self.reach([x for x in srcs if x not in b], avoid=set(b) | avoid) or node in srcs:
+                    continue
+                if node in self.reach(nb, avoid=set(b) | avoid):
+                    continue
+                after_b = [m for x in b for m in self.succ[x]]
+                mid = (self.reach(after_b, avoid=set(b) | avoid) & self.coreach([node], avoid=set(b) | avoid)) - {node}
+                if self._kills(nd.test, mid):
+                    continue
+                out.append((nd.test, pol))
+        return out
 
     def conds_at_stmt(self, stmt, expand=True):
         """Conditions holding at every node of ``stmt`` (intersection over copies)."""
